@@ -377,6 +377,10 @@ impl<'a, 't> Gen<'a, 't> {
                 x
             }
             _ => {
+                // consumed only when the switch is on: other users' tapes are unaffected
+                if self.cfg.boundary_pairs && self.r.chance(1, 20) {
+                    return self.boundary_pair_expr(e);
+                }
                 let ops: &[BinOp] = if e.is_int() {
                     &[BinOp::Add, BinOp::Sub, BinOp::Mul, BinOp::Div, BinOp::Mod]
                 } else {
@@ -428,6 +432,79 @@ impl<'a, 't> Gen<'a, 't> {
                 }
             }
         }
+    }
+
+    /// One operand of a boundary pair: the literal (synthesised where the value has no
+    /// literal form, see `print::literal_text`) or - 1 time in 3 - a variable of that type,
+    /// which the trace's boundary bursts drive to the same extremes.
+    fn boundary_operand(&mut self, e: Elem, v: Val) -> Expr {
+        if self.r.chance(1, 3) {
+            let reads: Vec<Access> = self
+                .readable(&Ty::Elem(e))
+                .into_iter()
+                .filter(|a| a.steps.is_empty() && !self.is_constant(&a.base))
+                .collect();
+            if !reads.is_empty() {
+                let a = reads[self.r.pick(reads.len())].clone();
+                return Expr::Read(Place::var(&a.base));
+            }
+        }
+        Expr::Lit(v)
+    }
+
+    /// Deliberately paired extremes: `min / -1`, `min MOD -1`, `min * -1`, `-min`,
+    /// `min - 1`, `max + 1`, `max * 2`, REAL `MAX + MAX`, ... (half of the time the pair that
+    /// sits exactly on the fault edge of the operator, else any pair of boundary values).
+    fn boundary_pair_expr(&mut self, e: Elem) -> Expr {
+        if e.is_real() {
+            let vals: [f64; 8] = if e == Elem::Real {
+                [f32::MAX as f64, -(f32::MAX as f64), 1.0, -1.0, 0.0, f32::MIN_POSITIVE as f64, 2.0, 0.5]
+            } else {
+                [f64::MAX, -f64::MAX, 1.0, -1.0, 0.0, f64::MIN_POSITIVE, 2.0, 0.5]
+            };
+            let mk = |x: f64| if e == Elem::Real { Val::real(x as f32) } else { Val::lreal(x) };
+            let op = [BinOp::Mul, BinOp::Add, BinOp::Sub, BinOp::Div][self.r.pick(4)];
+            let (a, b) = if self.r.flag() {
+                match op {
+                    BinOp::Mul => (vals[0], vals[6]),
+                    BinOp::Add => (vals[0], vals[0]),
+                    BinOp::Sub => (vals[1], vals[0]),
+                    _ => (vals[0], vals[5]),
+                }
+            } else {
+                (vals[self.r.pick(8)], vals[self.r.pick(8)])
+            };
+            let l = self.boundary_operand(e, mk(a));
+            let r = self.boundary_operand(e, mk(b));
+            return Expr::Bin(op, Box::new(l), Box::new(r));
+        }
+        if !e.is_int() {
+            return self.leaf(&Ty::Elem(e));
+        }
+        let (lo, hi) = e.int_range();
+        let clamp = |v: i128| v.max(lo).min(hi);
+        let set = [lo, clamp(lo + 1), clamp(-1), 0, 1, hi - 1, hi];
+        if e.is_signed_int() && self.r.chance(1, 6) {
+            let v = if self.r.chance(2, 3) { lo } else { set[self.r.pick(7)] };
+            let x = self.boundary_operand(e, Val::Int(e, v));
+            return Expr::Un(UnOp::Neg, Box::new(x));
+        }
+        let op = [BinOp::Div, BinOp::Mod, BinOp::Mul, BinOp::Add, BinOp::Sub][self.r.pick(5)];
+        let (a, b) = if self.r.flag() {
+            match (op, e.is_signed_int()) {
+                (BinOp::Div | BinOp::Mod | BinOp::Mul, true) => (lo, -1),
+                (BinOp::Div | BinOp::Mod, false) => (hi, 1),
+                (BinOp::Mul, false) => (hi, 2),
+                (BinOp::Add, _) => (hi, 1),
+                _ => (lo, 1),
+            }
+        } else {
+            (set[self.r.pick(7)], set[self.r.pick(7)])
+        };
+        let (a, b) = if self.r.chance(1, 4) { (b, a) } else { (a, b) };
+        let l = self.boundary_operand(e, Val::Int(e, a));
+        let r = self.boundary_operand(e, Val::Int(e, b));
+        Expr::Bin(op, Box::new(l), Box::new(r))
     }
 
     /// Operand types of a binary operation with result type `e`: both `e` in the strict
